@@ -31,6 +31,7 @@ GROUPS = {
                    dict(name="duration_build_after_read_total", kind="complete", timeout=1200, quick=True),
                    dict(name="utc_read_total", kind="complete", timeout=500, quick=["C10"]),
                    dict(name="socket_addr_roundtrip", kind="complete", timeout=1800, quick=["C09"]),
+                   dict(name="socket_addr_v6_scope_roundtrip", kind="complete", timeout=1800, quick=["C09"]),
                    dict(name="socket_addr_read_total", kind="bounded(ip field <= 20 bytes)", timeout=1800, quick=True)],
     ),
     "mux_header": dict(
